@@ -763,7 +763,7 @@ func init() {
 	register(&Rule{ID: "R11.stepper-exactly-once", Props: []string{"C11"}, Floor: 1,
 		Text: "every helper of the collection package that steps a Cursor parameter (nextStep) steps it exactly once on every path on which the cursor is not nil — the per-item callbacks count one call of the helper as one step (R11.cursor-protocol), so a helper that skips the step on some path (a yield boundary, say) makes the reported cursor lag and the next page repeat entries",
 		Run:  ruleStepperExactlyOnce})
-	register(&Rule{ID: "R10.batch-not-aliased", Props: []string{"C10"}, Floor: 2,
+	register(&Rule{ID: "R10.batch-not-aliased", Props: []string{"C10", "C05", "C07"}, Floor: 2,
 		Text: "a consumer that takes the pending batch of a guarded queue into a local (batch := q.items) and then releases the queue's lock leaves the queue with a slice that does not share the batch's backing array: the field is reset to nil or a fresh slice, never to q.items[:0] — producers append under the lock while the consumer is still reading the batch without it, and would overwrite messages not yet delivered (lost, and the overwriting message delivered twice, out of order)",
 		Run:  ruleBatchNotAliased})
 	register(&Rule{ID: "R12.multi-glob-unbounded", Props: []string{"C12"}, Floor: 2,
@@ -926,14 +926,22 @@ func ruleBatchNotAliased(c *Ctx) {
 				if _, ok := as.Lhs[0].(*ast.Ident); !ok {
 					continue
 				}
-				// the reset that follows
+				// the resets that follow, at any depth of the statements after the take (both arms of an if, …)
+				var resets []*ast.AssignStmt
 				for _, st2 := range body.List[i+1:] {
-					as2, ok := st2.(*ast.AssignStmt)
-					if !ok || len(as2.Lhs) != 1 || len(as2.Rhs) != 1 || selField(info, as2.Lhs[0]) != qf || !sameExpr(info, as2.Lhs[0], as.Rhs[0]) {
-						continue
-					}
+					inspectNoLit(st2, func(y ast.Node) bool {
+						if as2, ok := y.(*ast.AssignStmt); ok && len(as2.Lhs) == 1 && len(as2.Rhs) == 1 && selField(info, as2.Lhs[0]) == qf && sameExpr(info, as2.Lhs[0], as.Rhs[0]) {
+							resets = append(resets, as2)
+						}
+						return true
+					})
+				}
+				for ri, as2 := range resets {
 					n++
 					key := funcName(fn.Obj) + "→" + name
+					if ri > 0 {
+						key = fmt.Sprintf("%s#%d", key, ri+1)
+					}
 					r := ast.Unparen(as2.Rhs[0])
 					fresh := false
 					if tv, ok := info.Types[r]; ok && tv.IsNil() {
@@ -954,6 +962,13 @@ func ruleBatchNotAliased(c *Ctx) {
 						}
 						return true
 					})
+					// an append to the queue (a producer's or a re-insert) is not a reset
+					if call, ok := r.(*ast.CallExpr); ok && aliased {
+						if id, ok := ast.Unparen(call.Fun).(*ast.Ident); ok && id.Name == "append" && len(call.Args) >= 2 && selField(info, call.Args[0]) == qf {
+							n--
+							continue
+						}
+					}
 					switch {
 					case fresh && !aliased:
 						c.ok(key, as2.Pos(), true, "after the batch is taken the queue is reset to a slice with its own backing array")
@@ -962,7 +977,6 @@ func ruleBatchNotAliased(c *Ctx) {
 					default:
 						c.und(key, as2.Pos(), "queue reset to %s: not recognised as fresh or aliased", exprStr(r))
 					}
-					break
 				}
 			}
 			return true
